@@ -385,6 +385,48 @@ func (pl *planner) buildForced(ri int, class string, modes map[string]string, ad
 				fail(fmt.Sprintf("%s violates %q", prm.GoName, prm.Validate))
 			}
 			vals = []WireVal{v}
+		case mode == "wrong-location":
+			// the value travels under the declared wire name but in ANOTHER location; for the declared
+			// location the parameter is simply absent
+			if prm.Loc == "path" {
+				mode = "send"
+				v, _ := pl.goodValue(prm, false)
+				vals = []WireVal{v}
+				break
+			}
+			v, _ := pl.goodValue(prm, false)
+			other := map[string]string{"query": "header", "header": "query", "form": "query"}[prm.Loc]
+			if prm.Loc == "query" && (m.Verb == "POST" || m.Verb == "PUT" || m.Verb == "PATCH") {
+				hasBody := false
+				for _, o := range m.Params {
+					if o.Loc == "body" {
+						hasBody = true
+					}
+				}
+				if !hasBody {
+					other = "form"
+				}
+			}
+			switch other {
+			case "query":
+				if _, seen := q[wire]; !seen {
+					qOrder = append(qOrder, wire)
+				}
+				q.Add(wire, v.Raw)
+			case "header":
+				plan.Headers = append(plan.Headers, [2]string{wire, v.Raw})
+			case "form":
+				hasForm = true
+				form.Add(wire, v.Raw)
+			}
+			pp.Vals = nil
+			if prm.Type.Ptr && prm.Validate == "" {
+				expectArgs[i] = "?"
+			} else if prm.Type.Ptr && !strings.Contains(prm.Validate, "required") {
+				plan.Expect.Outcome, plan.Expect.Why = "unjudged", "optional parameter "+prm.GoName+" with validator sent in the wrong location"
+			} else {
+				fail(prm.GoName + " sent in " + other + " instead of " + prm.Loc)
+			}
 		case mode == "omit":
 			if prm.Loc == "path" {
 				mode = "send"
@@ -657,6 +699,26 @@ func (pl *planner) stray(ri int, kind string) *ReqPlan {
 	}
 	hit := matchRoute(pl.routes, verb, plain)
 	base.Params = nil
+	if hit >= 0 {
+		// does a parameter of the matched template carry a value that another same-verb template has as a
+		// LITERAL at that position (after an equal prefix)? Routers built on a radix tree that commit to the
+		// literal branch answer such paths differently; the finding must be told apart from ordinary strays.
+		hr := pl.routes[hit]
+		for oi, o := range pl.routes {
+			if oi == hit || o.M.Verb != verb {
+				continue
+			}
+			for i := 0; i < len(hr.Segs) && i < len(o.Segs); i++ {
+				if projgen.IsParamSeg(hr.Segs[i]) && !projgen.IsParamSeg(o.Segs[i]) && o.Segs[i] == plain[i] {
+					base.Tags = append(base.Tags, "value-equals-sibling-literal")
+					break
+				}
+				if !projgen.IsParamSeg(hr.Segs[i]) && !projgen.IsParamSeg(o.Segs[i]) && hr.Segs[i] != o.Segs[i] {
+					break
+				}
+			}
+		}
+	}
 	if hit == -2 {
 		base.Expect = Expect{Route: -1, Outcome: "unjudged", Policy: "ambiguous: several equally specific templates match"}
 	} else if hit >= 0 {
